@@ -21,9 +21,15 @@ FIXED = [
  ("C05", "fix: condition filter took", "condition{predicate: cells_per_row_offset 2 on a 2-cell row} evaluates the true branch"),
  ("C16", "fix: a GC pass reverted", "leveldb engines: a write acknowledged while a GC pass had released the table lock (after every 100th row) is overwritten by the pass's stale snapshot row"),
  ("C08", "fix: a kill during table clear/create", "kill inside DropRowRange(all)/CreateTable after the new MANIFEST file is created but before CURRENT is set (or in the middle of the directory removal): the next start panics with 'file missing'"),
+ ("C10", "fix: a metadata PATCH could overwrite", "PATCH body naming md5Hash/generation replaces the stored md5Hash (both stores) and generation (memory store)"),
+ ("C10", "fix: memory store shared one", "memory store: after Copy a -> b, PATCH of b's metadata also changes a's metadata (shared map; also C15)"),
  ("C17", "fix: leveldb row iteration ignored", "leveldb engines: a filter error raised on a non-last row is overwritten by the next row; read ends OK with the row missing (btree returns InvalidArgument; seen through C05)"),
 ]
 OPEN = [
+ {"status": "open", "property": "C10", "id": "generation-is-wall-clock-stalled", "witness": "generation-equal-under-stalled-clock",
+  "what": "the generation is the wall clock in nanoseconds: two content writes to one name at the same clock reading (stalled / coarse clock) get equal generations"},
+ {"status": "open", "property": "C10", "id": "generation-is-wall-clock-backward", "witness": "generation-after-backward-clock-step",
+  "what": "the generation is the wall clock in nanoseconds: after a backward step of the clock a rewrite gets a smaller generation than the version it replaces"},
  {"status": "open", "property": "C08", "id": "droprowrange-prefix-not-atomic", "witness": "inflight-droprowrange-prefix-partial",
   "what": "DropRowRange(prefix) deletes row by row: a kill in the middle leaves it half applied after restart (some of the matching rows gone, some still there)"},
  {"status": "open", "property": "C08", "id": "family-drop-purge-not-atomic", "witness": "inflight-family-drop-partial",
